@@ -144,6 +144,7 @@ AnomTags(kind) ==
                    "iter_mut_positional_count", "iter_skip_take_order"} -> <<"C06">>
       [] kind \in {"listed_entity_not_viewable",
                    "listed_entity_not_borrowable"}                    -> <<"C01", "C06">>
+      [] kind \in {"zero_param_count", "underscore_iter"}             -> <<"C05", "C06">>
       [] kind \in {"wev_positional"}                                  -> <<"C17">>
       [] kind \in {"hygiene_leak"}                                    -> <<"C02", "C05", "C06">>
       [] kind \in {"resolve_oob"}                                     -> <<"C03", "C01">>
